@@ -20,6 +20,7 @@ def check(rep):
     ER.rule_none_is_error(ctx)
     GR.rule_grammar_agrees(ctx)
     LR.rule_token_spelling(ctx, directions=("lexer<=doc",))
+    LR.rule_silent_only_trivia(ctx)
     ER.rule_skip_guard(ctx, rid="C06.SKIP-EXACT")
     ER.rule_commit_order(ctx, rid="C06.NO-ACCEPT-ON-FAILURE", parse_only=True)
     rep.assume("NOT claimed: an unterminated /* at end of input (sly ends tokenising in whatever state)")
